@@ -33,5 +33,5 @@ def initTimeGlobalWrites : List (String × String) := [
   ("github.com/koykov/inspector.tmpIdx", "inspector.tmpCntr"),
   ("github.com/koykov/inspector/testobj_ins.init", "testobj_ins.init$guard")]
 def runtimeEntryPoints : Nat := 14728
-def functionsReachable : Nat := 14778
+def functionsReachable : Nat := 14777
 end Inspector
